@@ -238,7 +238,7 @@ func (p *Pegnet) SelectMostRecentRatesBeforeHeight(ctx context.Context, tx Query
 		}
 		assets[fat2.StringToTicker(tickerName)] = rateValue
 	}
-	if rows.Err() != nil {
+	if err := rows.Err(); err != nil {
 		return nil, 0, err
 	}
 	return assets, rateHeight, nil
@@ -264,6 +264,9 @@ func _extractAssetsWithPrefix(rows *sql.Rows, prefix string) (map[fat2.PTicker]u
 		if ticker := fat2.StringToTicker(trimmed); ticker != fat2.PTickerInvalid {
 			assets[ticker] = rateValue
 		}
+	}
+	if err := rows.Err(); err != nil {
+		return nil, err
 	}
 	return assets, nil
 }
